@@ -105,10 +105,20 @@ def top_clauses(sql: str, ident_quote='"', backslash=False, calls_are_terms=Fals
     toks = tokens(sql, ident_quote, backslash)
     res = []
     i = 0
+    temporal = False  # inside "<table> FOR PORTION OF p FROM a TO b" / "FOR SYSTEM_TIME FROM a TO b": FROM is no clause
     while i < len(toks):
         k, t, d, _, _ = toks[i]
         if k == "word" and d == 0:
             hit = None
+            up = t.upper()
+            if up == "FOR" and i + 1 < len(toks) and toks[i + 1][0] == "word" and toks[i + 1][1].upper() in ("PORTION", "SYSTEM_TIME"):
+                temporal = True
+                i += 2
+                continue
+            if temporal and up == "FROM":
+                temporal = False
+                i += 1
+                continue
             if calls_are_terms and i + 1 < len(toks) and toks[i + 1][0] == "lp" and toks[i + 1][3] == toks[i][4]:
                 i += 1
                 continue
@@ -163,3 +173,56 @@ def paren_items(text: str, ident_quote='"', backslash=False):
                     items.append(text[cur:toks[b][3]].strip())
                     return items
     return None
+
+
+PREDICATE_CLAUSES = {"WHERE", "PREWHERE", "HAVING", "ON", "GROUP BY", "ORDER BY"}
+_FRAME_CLAUSES = [(ph.split(), nm) for ph, nm in CLAUSES] + [(["ON"], "ON"), (["USING"], "USING"), (["UNION"], "SETOP"),
+                                                              (["INTERSECT"], "SETOP"), (["EXCEPT"], "SETOP"),
+                                                              (["MINUS"], "SETOP"), (["OVER"], None)]
+
+
+def predicate_juxtapositions(sql: str, ident_quote='"', backslash=False):
+    """Places where, inside a predicate-like clause (WHERE, PREWHERE, HAVING, join ON, GROUP BY, ORDER BY) of the
+    statement or of any nested SELECT, an operand (quoted identifier, literal, number, closing bracket) is directly
+    followed by a quoted identifier with no operator, comma or keyword between them: an alias rendered where no alias
+    can stand.  Clauses are tracked per SELECT frame (a bracket group that starts with SELECT/WITH); other brackets
+    inherit the clause they sit in.  Returns [(clause, text around)]."""
+    toks = tokens(sql, ident_quote, backslash)
+    out = []
+    frames = [{"clause": None, "select": True}]  # the statement itself
+    i = 0
+    n = len(toks)
+    while i < n:
+        k, t, d, a, b = toks[i]
+        fr = frames[-1]
+        if k == "lp":
+            nxt = toks[i + 1] if i + 1 < n else None
+            is_sel = nxt is not None and nxt[0] == "word" and nxt[1].upper() in ("SELECT", "WITH")
+            frames.append({"clause": None if is_sel else fr["clause"], "select": is_sel})
+            i += 1
+            continue
+        if k == "rp":
+            if len(frames) > 1:
+                frames.pop()
+            i += 1
+            continue
+        if k == "word" and fr["select"]:
+            glued = i + 1 < n and toks[i + 1][0] == "lp" and toks[i + 1][3] == b
+            hit = None
+            if not glued:
+                for ws, nm in _FRAME_CLAUSES:
+                    if i + len(ws) <= n and all(toks[i + j][0] == "word" and toks[i + j][2] == d
+                                                and toks[i + j][1].upper() == ws[j] for j in range(len(ws))):
+                        hit = (nm, len(ws))
+                        break
+            if hit:
+                if hit[0] is not None:
+                    fr["clause"] = hit[0]
+                i += hit[1]
+                continue
+        if fr["clause"] in PREDICATE_CLAUSES and k == "id" and i > 0:
+            pk, pt, pd, pa, pb = toks[i - 1]
+            if pd == d and pk in ("id", "str", "num") or (pk == "rp" and pd == d):
+                out.append((fr["clause"], sql[max(0, pa - 30):b + 10]))
+        i += 1
+    return out
